@@ -341,8 +341,8 @@ func rulesExpansion(p *Prog, r *Report, eng *Engine) {
 					for _, in := range b.Instrs {
 						if c, ok := in.(*ssa.Call); ok {
 							callee := c.Call.StaticCallee()
-							if callee == nil || !p.InModule(callee) || isBoolType(c.Type()) {
-								continue
+							if callee == nil || !p.InModule(callee) || isBoolType(c.Type()) || !eng.rec[callee] {
+								continue // only the recursive expansion functions form the callee family
 							}
 							for _, a := range c.Call.Args {
 								if a == ssa.Value(prm) {
